@@ -47,6 +47,9 @@ class Cell(NullCell):
         return cls(TvmBitarray(1023), [], -1)
 
     def resolve_mask(self) -> LevelMask:
+        if self.type_ != CellTypes.ordinary and self.bits[:8].tobytes() != bytes([self.type_ & 0xff]):
+            # the type of an exotic cell IS its first data byte (this is how a bag of cells denotes it)
+            raise CellError('The first data byte of an exotic cell is not its type')
         if self.type_ == CellTypes.ordinary:
             # Ordinary Cell level = max(Cell refs)
             mask = 0
@@ -71,6 +74,9 @@ class Cell(NullCell):
             self._check_merkle_cell(2)
             return LevelMask((self.refs[0].level_mask.mask | self.refs[1].level_mask.mask) >> 1)
         elif self.type_ == CellTypes.library_ref:
+            # crypto/vm/cells/DataCell.cpp: a library cell is its type byte and a 256-bit hash, without references
+            if self.refs or len(self.bits) != 8 + 256:
+                raise CellError('Wrong data length or references in a library cell')
             return LevelMask(0)
         else:
             raise CellError(f'Unknown cell type: {self.type_}')
